@@ -63,15 +63,48 @@ def run_mutant(prop, patch, config="default"):
         shutil.rmtree(tmp, ignore_errors=True)
 
 
+def _run_mutant_job(a):
+    return run_mutant(*a)
+
+
+def _pool_map(fn, jobs):
+    """Extraction is serialised by a file lock (shared dependency cache); rule evaluation runs in parallel worker processes."""
+    import multiprocessing
+    n = min(len(jobs), int(os.environ.get("VERIF_JOBS", "0")) or max(1, min(8, (os.cpu_count() or 2) // 2)))
+    if n <= 1:
+        return [fn(j) for j in jobs]
+    with multiprocessing.get_context("fork").Pool(n) as pool:
+        return pool.map(fn, jobs, chunksize=1)
+
+
 def run_for_property(prop, config="default"):
     patches = sorted(glob.glob(os.path.join(VERIF, "selftest", "mutants", prop, "*.diff")))
-    results = []
-    # extraction is serialised by a lock; rule evaluation is cheap -> sequential is fine
-    for p in patches:
-        results.append(run_mutant(prop, p, config))
+    results = _pool_map(_run_mutant_job, [(prop, p, config) for p in patches])
     failed = ["%s: %s (%s)" % (r["mutant"], r["status"], r.get("why") or r.get("reported")) for r in results if r["status"] in ("missed", "broken")]
     return {"mutants": len(patches), "detected": sum(r["status"] == "detected" for r in results),
             "skipped": [r["mutant"] for r in results if r["status"] == "skipped"], "failed": failed, "results": results}
+
+
+def _run_benign_job(a):
+    import engine
+    patch, config, props, known = a
+    tmp, dst, err = make_scratch(patch)
+    name = os.path.basename(patch)
+    if tmp is None:
+        return {"refactor": name, "status": "skipped", "why": err}
+    try:
+        try:
+            d, info = extract.ensure_facts(config, repo=dst)
+        except extract.ExtractError as e:
+            return {"refactor": name, "status": "broken", "why": str(e)[-600:]}
+        alarms = []
+        for p in props:
+            inst, errs = engine.run_rules(p, d, config)
+            alarms += ["CRASH " + e[:300] for e in errs]
+            alarms += [i["key"] + " :: " + str(i.get("msg"))[:200] for i in inst if not i["ok"] and i["key"] not in known]
+        return {"refactor": name, "status": "silent" if not alarms else "FALSE-ALARM", "alarms": alarms}
+    finally:
+        shutil.rmtree(tmp, ignore_errors=True)
 
 
 def run_benign(config="default"):
@@ -79,28 +112,8 @@ def run_benign(config="default"):
     import engine
     props = sorted(os.path.basename(p)[:-3] for p in glob.glob(os.path.join(HERE, "rules", "C*.py")))
     known = {k["key"] for k in engine.load_known() if k.get("status") == "known"}
-    out = []
-    for patch in sorted(glob.glob(os.path.join(VERIF, "selftest", "mutants", "benign", "*.diff"))):
-        tmp, dst, err = make_scratch(patch)
-        name = os.path.basename(patch)
-        if tmp is None:
-            out.append({"refactor": name, "status": "skipped", "why": err})
-            continue
-        try:
-            try:
-                d, info = extract.ensure_facts(config, repo=dst)
-            except extract.ExtractError as e:
-                out.append({"refactor": name, "status": "broken", "why": str(e)[-600:]})
-                continue
-            alarms = []
-            for p in props:
-                inst, errs = engine.run_rules(p, d, config)
-                alarms += ["CRASH " + e[:300] for e in errs]
-                alarms += [i["key"] + " :: " + str(i.get("msg"))[:200] for i in inst if not i["ok"] and i["key"] not in known]
-            out.append({"refactor": name, "status": "silent" if not alarms else "FALSE-ALARM", "alarms": alarms})
-        finally:
-            shutil.rmtree(tmp, ignore_errors=True)
-    return out
+    patches = sorted(glob.glob(os.path.join(VERIF, "selftest", "mutants", "benign", "*.diff")))
+    return _pool_map(_run_benign_job, [(p, config, props, known) for p in patches])
 
 
 if __name__ == "__main__":
